@@ -275,6 +275,9 @@ class Program:
             return cands[0]
         if not cands:
             raise KeyError(f"class {name} not found in source")
+        pref = [c for c in cands if ".commands" in c.module]
+        if len(pref) == 1:
+            return pref[0]          # command classes take precedence over equally named grouped-AVP containers
         raise KeyError(f"class name {name} is ambiguous: {[c.qualname for c in cands]}")
 
     def func(self, qualname: str) -> FuncInfo:
